@@ -19,6 +19,7 @@ def run(tier):
     c.assumptions = ["the property's domain is a continuum; the check covers decimal alphabets chosen to maximise rounding-order disagreements, not all doubles in [1e-3,1e3]",
                      "exact oracle: doubles in [2^-10, 2^10] converted exactly to fixed point with scale 2^63"]
     b = _build()
+    c.builds_done()
     plan = [("G(0..4) x F", [["--n", n, "--alpha", "F"] for n in range(0, 5)]),
             ("G(6) x F, m <= 6, containing a 6-cycle (all labelled hexagons)", [["--n", 6, "--alpha", "F", "--max-m", 6, "--need-cycle-len", 6]]),
             ("G(6) x F, m <= 7, containing a cycle of >= 5 edges, signed+fvs variants", [["--n", 6, "--alpha", "F", "--max-m", 7, "--need-cycle-len", 5, "--variants", "signed,fvs,signed_tbb,fvs_tbb"]]),
